@@ -1,2 +1,5 @@
 -- Root of the `EdbVerif` library: models, lemmas and property theorems.
+import EdbVerif.Props.C04
+import EdbVerif.Props.C18
+import EdbVerif.Props.C19
 import EdbVerif.Props.C20
